@@ -1962,6 +1962,27 @@ foamToSExpr(Foam foam)
 
 #define croak(sx, msg)	comsgFatal(abNewNothing(sxiPos(sx)), msg)
 
+/*
+ * The value of an integer S-expression as a machine integer.  Integers of
+ * 62 bits and more are not immediate big integers, so they must be
+ * converted digit by digit rather than unpacked with bintSmall.
+ */
+local AInt
+foamIntFrSExpr(SExpr sxi)
+{
+	BInt	b = sxiToTheBigInteger(sxi);
+	ULong	n = 0;
+	int	i;
+
+	if (bintIsSmall(b)) return bintSmall(b);
+
+	for (i = bitsizeof(ULong) - 1; i >= 0; i--) {
+		n <<= 1;
+		if (bintBit(b, i)) n |= 1;
+	}
+	return bintIsNeg(b) ? (AInt) (0 - n) : (AInt) n;
+}
+
 Foam
 foamFrSExpr(SExpr sx)
 {
@@ -2007,7 +2028,7 @@ foamFrSExpr(SExpr sx)
 		case 'w':
 		case 'i':
 			if (!sxiIntegerP(sxi)) croak(sxi, ALDOR_F_LoadNotInteger);
-			foamArgv(foam)[si].data = sxiToInteger(sxi);
+			foamArgv(foam)[si].data = foamIntFrSExpr(sxi);
 			break;
 		case 't':
 		case 'o':
